@@ -49,14 +49,15 @@ func vtsTime(name string) uint32 {
 
 func vtsDate(y, m, d uint32) uint32 { return y<<9 | m<<5 | d }
 
-// the days the scripts start on (the script's clock readings are on the same or the next day):
-// an ordinary day; thorough also the last day of February in a leap and a non-leap year and the
-// last day of a year (for the roll-over of 23:59:59.999)
-var vtsDays = [][2]uint32{
-	{vtsDate(2025, 6, 15), vtsDate(2025, 6, 16)},
-	{vtsDate(2024, 2, 28), vtsDate(2024, 2, 29)},
-	{vtsDate(2023, 2, 28), vtsDate(2023, 3, 1)},
-	{vtsDate(2025, 12, 31), vtsDate(2026, 1, 1)},
+// the days the scripts start on, each with the two days following it (the script's clock
+// readings are on the first or the second day): an ordinary day; thorough also the last day of
+// February in a leap and a non-leap year and the last day of a year (for the roll-over of
+// 23:59:59.999)
+var vtsDays = [][3]uint32{
+	{vtsDate(2025, 6, 15), vtsDate(2025, 6, 16), vtsDate(2025, 6, 17)},
+	{vtsDate(2024, 2, 28), vtsDate(2024, 2, 29), vtsDate(2024, 3, 1)},
+	{vtsDate(2023, 2, 28), vtsDate(2023, 3, 1), vtsDate(2023, 3, 2)},
+	{vtsDate(2025, 12, 31), vtsDate(2026, 1, 1), vtsDate(2026, 1, 2)},
 }
 
 // vsumPlus stands for SuDate.Plus in the engine (summary=; natively the real Plus runs and the
@@ -79,8 +80,10 @@ func vsumPlus(d core.SuDate, yr, mon, day, hr, min, sec, ms int) core.SuDate {
 		return core.TsVerifMkDate(date, (h+1)<<22)
 	}
 	for _, dd := range vtsDays {
-		if date == dd[0] {
-			return core.TsVerifMkDate(dd[1], 0)
+		for k := 0; k+1 < len(dd); k++ {
+			if date == dd[k] {
+				return core.TsVerifMkDate(dd[k+1], 0)
+			}
 		}
 	}
 	rt.Assert("ts/model-knows-the-next-day", false)
@@ -129,7 +132,7 @@ var vtsThorough = []vtsVariant{{0, 0, 6, 0}, {0, 0, 3, 1}, {0, 0, 3, 2}, {0, 0, 
 // lexicographic order on (date, time, extra) and by the values' own Compare; a value with an
 // extra byte never has extra = 0.
 //
-//symgo:harness prop=C34 tier=quick shards=8 tshards=16 timeout=400 ttimeout=1700 preempt=0 summary=(github.com/apmckinlay/gsuneido/core.SuDate).Plus=vsumPlus bounds=scripts_of_4_(thorough_6)_events_from_{clock_tick_with_an_arbitrary_time,direct_request,client_A_request,client_B_request,expiry_of_A,expiry_of_B}_from_empty_client_batches;scripts_of_3_(4)_events_with_client_A_at_count_3_of_a_5-ms_batch_or_at_count_254_of_a_256-value_batch_(thorough:_counts_3,4_and_1,254,255);server_timestamp_starts_at_any_time_of_day_and_millisecond_on_2025-06-15_(thorough:_3-event_scripts_also_from_Feb_28_leap/non-leap,_Dec_31);quick_skips_scripts_that_end_without_a_request,_mirror_images_A<->B,_no-op_expiries outside=SuDate.Plus_(reached_only_for_the_+1_ms_roll-over_at_ms_999)_is_replaced_by_its_contract_in_the_engine_(property_C33;_the_real_one_is_compared_in_the_native_conformance_replays);the_ticker_and_tsExpire_goroutines_themselves_(their_loop_bodies_are_run_as_events;_the_real_ticker_runs_in_VerifC34Ticker);the_client-server_wire_transfer;server_restart_within_the_same_second_(990_ms_head_start);more_than_2_clients
+//symgo:harness prop=C34 tier=quick shards=8 tshards=16 timeout=400 ttimeout=1700 preempt=0 summary=(github.com/apmckinlay/gsuneido/core.SuDate).Plus=vsumPlus bounds=scripts_of_4_(thorough_6)_events_from_{clock_tick_with_an_arbitrary_time,direct_request,client_A_request,client_B_request,expiry_of_A,expiry_of_B}_from_empty_client_batches;scripts_of_3_(4)_events_with_client_A_at_count_3_of_a_5-ms_batch_or_at_count_254_of_a_256-value_batch_fetched_at_any_time_with_ms_<_500_resp._500..998_(thorough:_counts_3,4_and_1,254,255;_ms_500..999),_the_server_anywhere_later;server_timestamp_starts_at_any_time_of_day_and_millisecond_on_2025-06-15_(thorough:_3-event_scripts_also_from_Feb_28_leap/non-leap,_Dec_31);skipped_as_covered_by_other_scripts:_scripts_ending_without_a_request,_mirror_images_A<->B,_expiry_of_an_expired_batch outside=SuDate.Plus_(reached_only_for_the_+1_ms_roll-over_at_ms_999)_is_replaced_by_its_contract_in_the_engine_(property_C33;_the_real_one_is_compared_in_the_native_conformance_replays);the_ticker_and_tsExpire_goroutines_themselves_(their_loop_bodies_are_run_as_events;_the_real_ticker_runs_in_VerifC34Ticker);the_client-server_wire_transfer;server_restart_within_the_same_second_(990_ms_head_start);more_than_2_clients
 func VerifC34Ts() {
 	vars := vtsQuick
 	if rt.Thorough() {
@@ -138,9 +141,10 @@ func VerifC34Ts() {
 	va := vars[rt.Pick("variant", len(vars))]
 	nev := va.nev
 	days := vtsDays[va.day]
-	ms := uint32(rt.Choice("ms0", 1000))
-	stime := vtsTime("t0") | ms
-	timestamp = core.TsVerifMkDate(days[0], stime)
+	core.GetDbms = func() core.IDbms { return vtsDbms{} }
+	th := &core.Thread{}
+	saved := core.TsVerifGet()
+	defer core.TsVerifSet(saved)
 
 	// a client whose batch is used up / expired: its next request goes to the server, exactly
 	// as for a fresh process (tsCount = tsLimit = 0) except that the latter also starts the
@@ -150,52 +154,60 @@ func VerifC34Ts() {
 	var all []vts
 	var caller []int         // 0 direct, 1 A, 2 B
 	var asked, fresh [2]bool // client has asked at all / since its last expiry
+	sdate := days[0]
+	var floor uint32 // the server's time of day is at least this
 	if va.kind != 0 {
-		lms := uint32(rt.Choice("last_ms", 1000))
-		ltime := vtsTime("last") | lms
-		last := core.TsVerifMkDate(days[0], ltime)
-		var lastVal core.PackableValue = last
+		// client A fetches B from the server (the real code decides the kind and size of the
+		// batch), then uses va.count values of the batch
+		bms := uint32(rt.Choice("last_ms", 1000))
 		if va.kind == 1 {
-			// L = B + count where B (ms < 500) was fetched; the server moved on to B+5 at least
-			rt.Assume(rt.And(lms >= uint32(va.count), lms-uint32(va.count) < core.TsThreshold))
-			rt.Assume(stime >= ltime+uint32(core.TsInitialBatch-va.count))
-			clients[0] = core.TsVerifState{Count: va.count, Limit: core.TsInitialBatch, Last: last}
+			rt.Assume(bms < core.TsThreshold)
 		} else {
-			// L (ms >= 500) was fetched, count extra-byte values used; the server moved on past L
-			rt.Assume(lms >= core.TsThreshold)
-			rt.Assume(stime > ltime)
-			clients[0] = core.TsVerifState{Count: va.count, Limit: 256, Last: last}
-			if va.count > 0 {
-				lastVal = core.TsVerifMkTimestamp(last, uint8(va.count))
+			rt.Assume(bms >= core.TsThreshold)
+			if !rt.Thorough() {
+				rt.Assume(bms < 999) // quick: the server's roll-over is left to the scripts
 			}
 		}
+		btime := vtsTime("last") | bms
+		timestamp = core.TsVerifMkDate(sdate, btime)
+		core.TsVerifSet(expired)
+		lastVal := th.Timestamp()
+		st := core.TsVerifGet()
+		st.Count = va.count
+		if va.kind == 1 {
+			st.Last = core.TsVerifMkDate(sdate, btime+uint32(va.count)) // B + count ms
+			lastVal = st.Last
+		} else if va.count > 0 {
+			lastVal = core.TsVerifMkTimestamp(st.Last, uint8(va.count))
+		}
+		clients[0] = st
 		all = append(all, vtsOf(lastVal))
 		caller = append(caller, 1)
 		asked[0], fresh[0] = true, true
+		// where that fetch left the server; from there it has moved on arbitrarily (below)
+		sdate, floor, _, _ = core.TsVerifParts(timestamp)
 	}
+	ms := uint32(rt.Choice("ms0", 1000))
+	stime := vtsTime("t0") | ms
+	rt.Assume(stime >= floor)
+	timestamp = core.TsVerifMkDate(sdate, stime)
 
-	core.GetDbms = func() core.IDbms { return vtsDbms{} }
-	th := &core.Thread{}
-	saved := core.TsVerifGet()
-	defer core.TsVerifSet(saved)
 	for i := 0; i < nev; i++ {
 		nm := vname34("e", i)
 		ev := rt.Pick(nm, 6)
 		// scripts that add nothing are skipped: a script ending in an event that hands out no
-		// value is covered by the shorter script (thorough runs them all the same); B's
-		// first request before A's first is the mirror image of the script with A and B
-		// exchanged; an expiry of a client that has not asked since its last expiry (or at all)
-		// changes nothing
-		if !rt.Thorough() {
-			if i == nev-1 && (ev == 0 || ev >= 4) {
-				return
-			}
-			if ev == 3 && !asked[0] && !asked[1] {
-				return
-			}
-			if ev >= 4 && !fresh[ev-4] {
-				return
-			}
+		// value is covered by the script that has requests in place of its trailing other
+		// events (the oracle looks at all values of the script); B's first request before A's
+		// first is the mirror image of the script with A and B exchanged (both start alike
+		// then); an expiry of a client whose batch is expired already changes nothing
+		if i == nev-1 && (ev == 0 || ev >= 4) {
+			return
+		}
+		if ev == 3 && !asked[0] && !asked[1] {
+			return
+		}
+		if ev >= 4 && !fresh[ev-4] {
+			return
 		}
 		switch ev {
 		case 0:
